@@ -93,7 +93,7 @@ func allZero(b []byte) bool {
 	return true
 }
 
-func concatVals(items []refctl.Item, skipDelims bool) []byte {
+func concatVals(items []refctl.Item) []byte {
 	var o []byte
 	for _, it := range items {
 		o = append(o, it.Val...)
@@ -127,8 +127,8 @@ func diffClass(kind string, hb, rb []byte) string {
 		} else if dh > dr {
 			return "delimiter-extra"
 		}
-		if len(hi) != len(ri) && bytes.Equal(concatVals(hi, false), concatVals(ri, false)) {
-			return "fragmentation"
+		if bytes.Equal(concatVals(hi), concatVals(ri)) {
+			return "fragmentation" // same content, other item boundaries
 		}
 	}
 	if len(hi) != len(ri) {
@@ -286,8 +286,11 @@ func oneDecodeCause(w reflect.Value, kind, path string) *cause {
 	return &cause{"roundtrip:" + kind + ":" + cl, what, path, d}
 }
 
-// zeroPrefixSymptom: the decoded list is exactly the input cut before an all-zero element.
-func zeroPrefixSymptom(in, out reflect.Value) bool {
+// zeroPrefixSymptom: the decoded list is exactly the input cut before an all-zero element, and the
+// cut moves when that element is made non-zero (so it is the zero value that ends the list, not the
+// position).  w is the one-field struct that holds the inline list, d what hc decoded from it.
+func zeroPrefixSymptom(w, d reflect.Value) bool {
+	in, out := w.Field(0), d.Field(0)
 	k := out.Len()
 	if k >= in.Len() || !isZeroTLV(in.Index(k)) {
 		return false
@@ -297,7 +300,62 @@ func zeroPrefixSymptom(in, out reflect.Value) bool {
 			return false
 		}
 	}
-	return true
+	alt := deepCopy(w)
+	if !makeNonZero(alt.Field(0).Index(k)) {
+		return false
+	}
+	ad, err, pan := hcUnmarshal(refEncode(alt), alt.Type())
+	return pan == "" && err == nil && ad.Field(0).Len() > k
+}
+
+// makeNonZero sets the first scalar field of a struct to a non-zero value.
+func makeNonZero(e reflect.Value) bool {
+	for _, f := range fields(e.Type()) {
+		fv := e.Field(f.idx)
+		switch fv.Kind() {
+		case reflect.Uint8, reflect.Uint16, reflect.Uint32, reflect.Uint64:
+			fv.SetUint(1)
+			return true
+		case reflect.Int8, reflect.Int16, reflect.Int32, reflect.Int64:
+			fv.SetInt(1)
+			return true
+		case reflect.Bool:
+			fv.SetBool(true)
+			return true
+		case reflect.Float32:
+			fv.SetFloat(1)
+			return true
+		case reflect.String:
+			fv.SetString("x")
+			return true
+		case reflect.Struct:
+			if makeNonZero(fv) {
+				return true
+			}
+		}
+	}
+	return false
+}
+
+// firstFieldOnly projects an inline list (in its one-field struct) onto the first field of its
+// elements: same tag, same length, same (non-zero) values, but single-field elements.
+func firstFieldOnly(w reflect.Value) reflect.Value {
+	l := w.Field(0)
+	et := l.Type().Elem()
+	ff := fields(et)[0]
+	sf := et.Field(ff.idx)
+	pt := reflect.StructOf([]reflect.StructField{{Name: sf.Name, Type: sf.Type, Tag: sf.Tag}})
+	wt := reflect.StructOf([]reflect.StructField{{Name: "L", Type: reflect.SliceOf(pt), Tag: `tlv8:"-"`}})
+	out := reflect.New(wt).Elem()
+	s := reflect.MakeSlice(reflect.SliceOf(pt), l.Len(), l.Len())
+	for i := 0; i < l.Len(); i++ {
+		s.Index(i).Field(0).Set(l.Index(i).Field(ff.idx))
+		if isZeroTLV(s.Index(i)) { // keep clear of what zero-valued elements may do to a list
+			makeNonZero(s.Index(i))
+		}
+	}
+	out.Field(0).Set(s)
+	return out
 }
 
 func elementsDecodeOK(l reflect.Value) bool {
@@ -324,14 +382,14 @@ func classifyList(w reflect.Value, kind string) (string, reflect.Value, reflect.
 	}
 	d := dec(w)
 	inline := kind == "inline-list"
-	if inline && zeroPrefixSymptom(w.Field(0), d.Field(0)) {
+	if inline && zeroPrefixSymptom(w, d) {
 		if zeroMinimised >= 8 { // the class is decided by the symptom; the minimal form only serves the witness
 			return "zero-element", w, d
 		}
 		zeroMinimised++
 		// minimal form of the same symptom
 		min := shrink(w, 600, func(c reflect.Value) bool {
-			return elementsDecodeOK(c.Field(0)) && !decodeOK(c) && zeroPrefixSymptom(c.Field(0), dec(c).Field(0))
+			return elementsDecodeOK(c.Field(0)) && !decodeOK(c) && zeroPrefixSymptom(c, dec(c))
 		})
 		return "zero-element", min, dec(min)
 	}
@@ -339,7 +397,7 @@ func classifyList(w reflect.Value, kind string) (string, reflect.Value, reflect.
 		if !elementsDecodeOK(c.Field(0)) || decodeOK(c) {
 			return false
 		}
-		return !(inline && zeroPrefixSymptom(c.Field(0), dec(c).Field(0)))
+		return !(inline && zeroPrefixSymptom(c, dec(c)))
 	})
 	l := min.Field(0)
 	md := dec(min)
@@ -352,7 +410,8 @@ func classifyList(w reflect.Value, kind string) (string, reflect.Value, reflect.
 	if l.Len() > 0 && big(0) {
 		return "fragmented-first-element", min, md
 	}
-	if inline && l.Len() >= 2 && len(fields(l.Type().Elem())) > 1 {
+	if inline && l.Len() >= 2 && len(fields(l.Type().Elem())) > 1 && decodeOK(firstFieldOnly(min)) {
+		// the same list with single-field elements decodes: it is the further fields that break it
 		return "multi-field-element", min, md
 	}
 	if md.Field(0).Len() != l.Len() {
